@@ -252,4 +252,8 @@ func (g *Gates) ResetHits() {
 }
 
 // Stuck returns keys at which a goroutine waited longer than the park limit.
-func (g *Gates) Stuck() []string { g.mu.Lock(); defer g.mu.Unlock(); return append([]string(nil), g.stuck...) }
+func (g *Gates) Stuck() []string {
+	g.mu.Lock()
+	defer g.mu.Unlock()
+	return append([]string(nil), g.stuck...)
+}
